@@ -3,6 +3,7 @@ package ack
 import (
 	"errors"
 	"fmt"
+	"sync"
 	"time"
 
 	"github.com/vx-labs/mqtt-protocol/packet"
@@ -43,6 +44,9 @@ type message struct {
 	deadline time.Time
 }
 type queue struct {
+	// mu makes Ack's "check the expected type, then remove" atomic with respect to
+	// registrations and expiries of the same key; callbacks run outside of it.
+	mu       sync.Mutex
 	msg      *gotomic.Hash
 	timeouts expiration.List
 }
@@ -66,24 +70,21 @@ func (q *queue) Ack(prefix string, pkt packet.Packet) error {
 	switch p := pkt.(type) {
 	case Ackers:
 		k := hashKey(prefix, p.GetMessageId())
-		// A packet of the wrong type must leave the pending exchange untouched.
+		// A packet of the wrong type must leave the pending exchange untouched: look at
+		// the entry and remove it in one step with respect to registration and expiry.
+		q.mu.Lock()
 		v, ok := q.msg.Get(k)
 		if !ok {
-			return ErrWrongMID
-		}
-		if state := v.(message).state; state != pkt.Type() {
-			return fmt.Errorf("unexpected packet type: wanted %v, got %v", state, pkt.Type())
-		}
-		v, ok = q.msg.Delete(k)
-		if !ok {
+			q.mu.Unlock()
 			return ErrWrongMID
 		}
 		msg := v.(message)
 		if msg.state != pkt.Type() {
-			// the identifier was re-registered for another exchange in between: put it back
-			q.msg.PutIfMissing(k, msg)
+			q.mu.Unlock()
 			return fmt.Errorf("unexpected packet type: wanted %v, got %v", msg.state, pkt.Type())
 		}
+		q.msg.Delete(k)
+		q.mu.Unlock()
 		q.timeouts.Delete(k, msg.deadline)
 		msg.callback(false, msg.pkt, pkt)
 		return nil
@@ -94,7 +95,9 @@ func (q *queue) Ack(prefix string, pkt packet.Packet) error {
 func (q *queue) Expire(now time.Time) {
 	for _, v := range q.timeouts.Expire(now) {
 		key := v.(gotomic.StringKey)
+		q.mu.Lock()
 		m, ok := q.msg.Delete(key)
+		q.mu.Unlock()
 		if ok {
 			msg := m.(message)
 			msg.callback(true, msg.pkt, nil)
@@ -102,7 +105,10 @@ func (q *queue) Expire(now time.Time) {
 	}
 }
 func (q *queue) push(k gotomic.Hashable, msg message) error {
-	if !q.msg.PutIfMissing(k, msg) {
+	q.mu.Lock()
+	added := q.msg.PutIfMissing(k, msg)
+	q.mu.Unlock()
+	if !added {
 		return ErrDupMID
 	}
 	q.timeouts.Insert(k, msg.deadline)
